@@ -668,7 +668,7 @@ def _slice_composite(st, b, lo, hi):
     h = 0 if hi is None else -hi
     # result = prefix[lo:] + view + suffix[:post-h]    when lo <= pre and h <= post
     if lo <= pre and h <= post:
-        segs = list(_slice_segments(st, SBytes(b.segs[:u]), lo, pre).segs) if u else []
+        segs = list(as_sbytes(_slice_segments(st, SBytes(b.segs[:u]), lo, pre)).segs) if u else []
         if not isinstance(segs, list):
             segs = list(segs)
         tail = _slice_segments(st, SBytes(b.segs[u + 1:]), 0, post - h)
